@@ -182,6 +182,62 @@ func doDump(w *World, what string) {
 			}
 		}
 		fmt.Println(n, "pairs")
+	case what == "famkeys":
+		e := computeEffects(w)
+		agg := map[string]map[string][]string{}
+		for f, accs := range e.Direct {
+			if !w.fnInScope(f) {
+				continue
+			}
+			for _, a := range accs {
+				kc := e.R.keyCtor(accessKey(a.Instr), 0)
+				for _, fam := range a.Families {
+					if agg[fam] == nil {
+						agg[fam] = map[string][]string{}
+					}
+					agg[fam][a.Kind+" "+kc] = append(agg[fam][a.Kind+" "+kc], f.Name())
+				}
+			}
+		}
+		var fams []string
+		for f := range agg {
+			fams = append(fams, f)
+		}
+		sort.Strings(fams)
+		for _, f := range fams {
+			fmt.Println(e.R.famName(f))
+			var ks []string
+			for k := range agg[f] {
+				ks = append(ks, k)
+			}
+			sort.Strings(ks)
+			for _, k := range ks {
+				fmt.Printf("    %-70s %v\n", k, agg[f][k])
+			}
+		}
+	case strings.HasPrefix(what, "callees:"):
+		name := strings.TrimPrefix(what, "callees:")
+		for f := range w.AllFuncs {
+			if fnName(f) != name {
+				continue
+			}
+			for _, c := range calls(f) {
+				if c.Common().IsInvoke() {
+					var vt, ch []string
+					for _, t := range w.siteOut[c] {
+						vt = append(vt, fnName(t))
+					}
+					if n := w.CHA.Nodes[f]; n != nil {
+						for _, e := range n.Out {
+							if e.Site == c {
+								ch = append(ch, fnName(e.Callee.Func))
+							}
+						}
+					}
+					fmt.Printf("%s %s.%s\n   vta=%v\n   cha=%v\n", w.pos(c.Pos()), c.Common().Value.Type(), c.Common().Method.Name(), vt, ch)
+				}
+			}
+		}
 	case what == "entries":
 		c := catalogue(w)
 		c.print(w)
